@@ -311,7 +311,7 @@ check("C34", "internal/zzverif/c34",
       level_text="Every block of generated histories is compared with an independent model of the statistics equations; the race detector watches the three concurrent updaters. Held = no divergence and no race report on what was explored.",
       note="Reporter set per GP 11.26/13.5: the Ed25519 keys of guarantee signers taken from kappa' (same rotation, or previous rotation inside the same epoch) or lambda' (previous rotation in the previous epoch); no offenders are present, histories start at tau >= E + R so that tau' - R never underflows (U12).",
       shards=(8, 16), race=True, env={"JAM_FUZZ": "1"},
-      floors={"any": {"blocks": 3000, "blocks_at_an_epoch_change": 500, "guarantees": 1500, "guarantees_from_the_previous_rotation": 300, "assurances": 5000, "preimages": 3000, "blocks_with_available_reports": 1000, "service_records": 5000}},
+      floors={"any": {"blocks": 3000, "blocks_at_an_epoch_change": 500, "guarantees": 1500, "guarantees_from_the_previous_rotation": 300, "assurances": 5000, "preimages": 3000, "blocks_with_available_reports": 1000, "service_records": 5000, "services_accumulated_without_a_report": 200}},
       assumptions=[STANDIN_VRF])
 
 check("C28", "internal/telemetry",
